@@ -1046,9 +1046,21 @@ func c01GroupArg(r *core.Run, a *svcAnchors, root []*ssa.Function) {
 			continue
 		}
 		var parse ssa.CallInstruction
-		for _, c := range core.Calls(fn) {
-			if cal := c.Common().StaticCallee(); cal != nil && cal.Name() == "parseGroup" {
-				parse = c
+		for _, f2 := range p.Scope(fn) {
+			for _, c := range core.Calls(f2) {
+				cal := c.Common().StaticCallee()
+				if cal == nil || cal.Signature.Recv() != nil || cal.Signature.Results().Len() != 1 || core.TypeName(cal.Signature.Results().At(0).Type()) != "group" || cal.Signature.Params().Len() != 2 {
+					continue
+				}
+				strs := 0
+				for i := 0; i < 2; i++ {
+					if b, ok := cal.Signature.Params().At(i).Type().Underlying().(*types.Basic); ok && b.Kind() == types.String {
+						strs++
+					}
+				}
+				if strs == 2 {
+					parse = c
+				}
 			}
 		}
 		if parse == nil {
